@@ -100,6 +100,31 @@ def build_program(ann):
   return "\n".join(lines) + "\n", where
 
 
+# further shapes of the argument site: how the argument reaches the annotated parameter
+ARG_SHAPES = [
+    ("kwarg", "def g_kw(p: %s): pass", "g_kw(p=%s)"),
+    ("kwonly", "def g_kwo(*, p: %s): pass", "g_kwo(p=%s)"),
+    ("posonly", "def g_po(p: %s, /): pass", "g_po(%s)"),
+    ("second", "def g_2(o, p: %s = ..., *r): pass", "g_2(0, %s)"),
+    ("method", "class GM:\n  def m(self, p: %s): pass", "GM().m(%s)"),
+    ("star", "def g_st(*p: %s): pass", "g_st(%s)"),
+    ("dstar", "def g_ds(**p: %s): pass", "g_ds(k=%s)"),
+]
+ARG_SITES = tuple(a[0] for a in ARG_SHAPES)
+
+
+def build_program2(ann):
+  """The argument-shape program of an annotation: (source, {line: (site, value index)})."""
+  lines = PRELUDE.rstrip("\n").split("\n")
+  where = {}
+  for site, dfn, call in ARG_SHAPES:
+    lines += (dfn % ann).split("\n")
+    for i, (v, _) in enumerate(VALUES):
+      lines.append(call % v)
+      where[len(lines)] = (site, i)
+  return "\n".join(lines) + "\n", where
+
+
 _NS = None
 
 
@@ -157,7 +182,7 @@ def excluded(ann, ann_node, vexpr, tag, site, v):
     return "str vs Iterable[str]"
   if site == "assign" and tag == "none":
     return "None at annotated assignment"
-  if site == "arg" and tag == "hetero":
+  if (site == "arg" or site in ARG_SITES) and tag == "hetero":
     return "heterogeneous container at argument site"
   if tag == "cls" and "Callable[[" in a:
     return "class object vs specific Callable signature"
@@ -165,7 +190,10 @@ def excluded(ann, ann_node, vexpr, tag, site, v):
 
 
 def check_annotation(ann):
-  src, where = build_program(ann)
+  shapes = ann.startswith("@shapes ")
+  if shapes:
+    ann = ann[len("@shapes "):]
+  src, where = build_program2(ann) if shapes else build_program(ann)
   res = pt.analyze(src, share=SHARE, none_is_not_bool=True)
   ns = namespace()
   env = adm.Env(ns)
@@ -174,6 +202,7 @@ def check_annotation(ann):
   for name, line, msg in res.errors:
     errs_by_line.setdefault(line, []).append(name)
   expected_name = {"arg": "wrong-arg-types", "ret": "bad-return-type", "assign": "annotation-type-mismatch"}
+  expected_name.update({a: "wrong-arg-types" for a in ARG_SITES})
   bad = []
   stats = {"checked": 0, "excluded": 0, "errors_expected": 0}
   vals = [eval(v, ns) for v, _ in VALUES]  # pylint: disable=eval-used
@@ -226,6 +255,7 @@ def run(rep, tier, seed):
   global SHARE
   SHARE = tier == "quick"
   anns = annotations(tier)
+  anns = anns + ["@shapes " + a for a in anns]
   for ann, (bad, stats, nbad) in vrun.pmap(work, anns, seed=seed, chunksize=1):
     rep.evaluations += stats["checked"]
     rep.nontrivial_extra += stats["errors_expected"]
@@ -236,7 +266,8 @@ def run(rep, tier, seed):
       key = vrun.sha(ann + "|" + b)
       rep.violation(key, "annotation %s: %s" % (ann, b), {"ann": ann, "message": b})
   rep.sample({"annotation": "Sequence[int]", "sites": SITES, "values": [v for v, _ in VALUES[:12]]})
-  rep.cov.update({"annotations": len(anns), "values": len(VALUES), "sites": 3})
+  rep.cov.update({"annotations": len(anns) // 2, "values": len(VALUES), "sites": 3 + len(ARG_SHAPES),
+                  "argument_shapes": [a[0] + ": " + a[1].replace("%s", "T") for a in ARG_SHAPES]})
   rep.rule = ("annotation x value x site; error expected iff the run-time value is not an inhabitant (PEP 484 oracle on "
               "the evaluated value); non-trivial = pairs where an error is expected")
   rep.assumptions += ["analysed with none_is_not_bool=True",
